@@ -79,7 +79,24 @@ Theorem C20_vol_is_full_meaning : forall sn smax full,
 Proof. exact vol_is_full_meaning. Qed.
 Print Assumptions C20_vol_is_full_meaning.
 
-(* FULL label-level statement of "exactly the complete volumes are returned" for the strict
+(* label level, strict order, positive part: if the stage-1 (key) order of the records is a
+   sequence of complete volumes (each with slices 1..slice_max in order; in key order a run
+   of records that agree on every key but the slice number - the least significant key - is
+   such a block) followed by at most one incomplete volume (distinct slice numbers, one
+   missing; T = [] for an untruncated recording), then the output is EXACTLY those complete
+   volumes, in key order, slice by slice: output volume k is the k-th group. *)
+Theorem C20_strict_complete_volumes : forall smax recs Gs T idx,
+  stage1 recs = concat Gs ++ T -> Gs <> [] -> 1 <= smax ->
+  Forall (complete_group smax) Gs ->
+  NoDup (map sl T) -> (forall s, In s (map sl T) -> 1 <= s <= smax) ->
+  (exists s0, 1 <= s0 <= smax /\ ~ In s0 (map sl T)) ->
+  sorted_slice_indices true smax recs = Some idx ->
+  select dummy idx recs = concat Gs.
+Proof. exact strict_complete_volumes. Qed.
+Print Assumptions C20_strict_complete_volumes.
+
+(* Without that shape of the key order the label-level statement fails:
+   FULL label-level statement of "exactly the complete volumes are returned" for the strict
    order: every output volume (n_slices consecutive output slices) consists of records that
    agree on all keys but the slice number.  It is FALSE of the faithful model when a volume
    that is not last in key order lacks a slice (finding S-C20b): vol_numbers pairs the
@@ -106,6 +123,19 @@ Print Assumptions C20_strict_label_volumes_refuted.
 
 (* non-vacuity: two volumes of two slices with distinct keys and different scale factors,
    recorded volume-major and slice-major-reversed; both loads succeed with the same result *)
+Example C20_strict_complete_volumes_nonvacuous :
+  let A1 := mkRec [1;0] 1 0 0 0 0 [] [] in let A2 := mkRec [2;0] 2 1 0 0 0 [] [] in
+  let B1 := mkRec [1;1] 1 2 0 0 0 [] [] in let B2 := mkRec [2;1] 2 3 0 0 0 [] [] in
+  let C1 := mkRec [1;2] 1 4 0 0 0 [] [] in
+  let recs := [C1; B2; A2; B1; A1] in
+  stage1 recs = concat [[A1; A2]; [B1; B2]] ++ [C1] /\ Forall (complete_group 2) [[A1; A2]; [B1; B2]] /\
+  NoDup (map sl [C1]) /\ ~ In 2 (map sl [C1]) /\
+  sorted_slice_indices true 2 recs = Some [4; 2; 3; 1]%nat.
+Proof.
+  cbv zeta. split; [vm_compute; reflexivity|]. split; [repeat constructor|].
+  split; [repeat constructor; cbn; tauto|]. split; [cbn; intuition discriminate|vm_compute; reflexivity].
+Qed.
+
 Example C20_nonvacuous :
   let recs := [mkRec [1;1] 1 0 10 11 12 [1;1] [1]; mkRec [2;1] 2 1 20 21 22 [2;1] [1];
                mkRec [1;2] 1 2 30 31 32 [1;2] [2]; mkRec [2;2] 2 3 40 41 42 [2;2] [2]] in
